@@ -72,7 +72,7 @@ def run(ctx):
             ctx.mismatch("qVectors model vs sample_q_vectors (bit-exact expected)", r, a, m, d)
         check_vectors(ctx, r, D, L, tail, a["q"], "sample_q_vectors")
     # (ii) through real samples
-    ss = S.generate(ctx, 10 if ctx.quick else 60, 2 if ctx.quick else 4, max_e=6, max_loops=4, routings_per_graph=1,
+    ss = S.generate(ctx, 10 if ctx.quick else 60, 4 if ctx.quick else 8, max_e=6, max_loops=4, routings_per_graph=1,
                     names=["bubble", "sunrise", "banana4", "banana5", "triangle", "double_triangle", "tadpole"], kinds=("uniform", "angles", "tiny_xi", "zero_xi"))
     S.run(ss)
     SC.corr_qvec(ctx, ss)
